@@ -11,6 +11,7 @@ import (
 	"verifsim/engine"
 	"verifsim/gtier"
 	"verifsim/oracle"
+	"verifsim/rollup"
 	"verifsim/service"
 	"verifsim/tape"
 
@@ -275,4 +276,145 @@ func (c *C18) concurrentCallers(x *engine.Ctx) *engine.Violation {
 	x.S.Count("fault:schedule/interleaved-histories-on-separate-trees")
 	res, sim, err := service.RunCallers(t, x.Log, x.S, callers)
 	return callersVerdict(x, "C18", fmt.Sprintf("%d tree updates on %d separate trees", calls, ncall), res, sim, err)
+}
+
+// --- C07 -------------------------------------------------------------------------------------------
+
+// concurrentCallers: 2..3 caller tasks hand their own parameter sets to ProveInsertion/ProveDeletion of ONE
+// shared proving system, interleaved at every statement of the instrumented prover package. A caller's set is a
+// fresh valid batch (owed a proof that verifies for its own input hash) or the invalid twin of another caller's
+// valid batch (same stated input hash, one sibling / commitment / root changed: owed an error and no proof).
+// Whatever the prover shares between calls (buffers, caches, pools) must not let one call decide another's result.
+func (c *C07) concurrentCallers(x *engine.Ctx) *engine.Violation {
+	t := x.T
+	var s *gtier.System
+	for _, cand := range []*gtier.System{c.g.systems[t.Pick(2)], c.g.systems[0], c.g.systems[1]} {
+		if cand.Depth <= 12 {
+			s = cand
+			break
+		}
+	}
+	if s == nil {
+		return nil
+	}
+	gtier.SeedRand(uint64(t.U32())<<32|uint64(t.U32()), uint64(t.U32()))
+	ncall := 2 + t.Draw(3)
+	type job struct {
+		ins   *prover.InsertionParameters
+		del   *prover.DeletionParameters
+		hash  *big.Int
+		valid bool
+		kind  string
+	}
+	jobsOf := make([][]job, ncall)
+	var valids []job
+	var validIW []*oracle.InsertionWitness
+	var validDW []*oracle.DeletionWitness
+	mkValid := func() job {
+		if s.Mode == rollup.Insertion {
+			w, _ := validInsertion(t, s)
+			validIW = append(validIW, w)
+			validDW = append(validDW, nil)
+			return job{ins: gtier.InsertionParams(w), hash: w.InputHash, valid: true, kind: "valid"}
+		}
+		w, _ := validDeletion(t, s)
+		validIW = append(validIW, nil)
+		validDW = append(validDW, w)
+		return job{del: gtier.DeletionParams(w), hash: w.InputHash, valid: true, kind: "valid"}
+	}
+	bump := func(v *big.Int) { v.Add(v, big.NewInt(int64(1+t.Draw(3)))) }
+	mkTwin := func(k int) (job, bool) {
+		if iw := validIW[k]; iw != nil {
+			p := gtier.InsertionParams(iw)
+			kind := ""
+			switch t.Draw(3) {
+			case 0:
+				row := t.Pick(len(p.MerkleProofs))
+				bump(&p.MerkleProofs[row][t.Pick(len(p.MerkleProofs[row]))])
+				kind = "twin-other-sibling"
+			case 1:
+				bump(&p.IdComms[t.Pick(len(p.IdComms))])
+				kind = "twin-other-commitment"
+			default:
+				bump(&p.PostRoot)
+				kind = "twin-other-post-root"
+			}
+			return job{ins: p, hash: iw.InputHash, kind: kind}, true
+		}
+		dw := validDW[k]
+		p := gtier.DeletionParams(dw)
+		size := uint64(1) << uint(s.Depth)
+		kind := ""
+		switch t.Draw(2) {
+		case 0:
+			// a sibling of a real (non-padding) slot
+			for row := range p.MerkleProofs {
+				if uint64(p.DeletionIndices[row]) < size && dw.Items[row].Sign() != 0 {
+					bump(&p.MerkleProofs[row][t.Pick(len(p.MerkleProofs[row]))])
+					kind = "twin-other-sibling"
+					break
+				}
+			}
+			if kind == "" {
+				bump(&p.PostRoot)
+				kind = "twin-other-post-root"
+			}
+		default:
+			bump(&p.PreRoot)
+			kind = "twin-other-pre-root"
+		}
+		return job{del: p, hash: dw.InputHash, kind: kind}, true
+	}
+	calls := 0
+	for ci := 0; ci < ncall; ci++ {
+		n := 1 + t.Draw(3)
+		for k := 0; k < n; k++ {
+			if len(valids) > 0 && t.Chance(1, 2) {
+				if j, ok := mkTwin(t.Pick(len(valids))); ok {
+					jobsOf[ci] = append(jobsOf[ci], j)
+					calls++
+					continue
+				}
+			}
+			j := mkValid()
+			valids = append(valids, j)
+			jobsOf[ci] = append(jobsOf[ci], j)
+			calls++
+		}
+	}
+	callers := make([]func() string, ncall)
+	for ci := range callers {
+		jobs := jobsOf[ci]
+		callers[ci] = func() string {
+			for k, j := range jobs {
+				var p *prover.Proof
+				var err error
+				if j.ins != nil {
+					p, err = safeProveIns(s, j.ins)
+				} else {
+					p, err = safeProveDel(s, j.del)
+				}
+				if isPanic(err) {
+					return fmt.Sprintf("prover-panics: call %d (%s): %v", k, j.kind, err)
+				}
+				if j.valid {
+					if err != nil || p == nil {
+						return fmt.Sprintf("valid-batch-not-proved: call %d on %s: %v", k, s.Key(), err)
+					}
+					if verr := verifyVia(s, j.hash, p.Proof); verr != nil {
+						return fmt.Sprintf("proof-does-not-verify-for-own-hash: call %d on %s, hash 0x%s: %v", k, s.Key(), j.hash.Text(16), verr)
+					}
+					continue
+				}
+				if err == nil {
+					return fmt.Sprintf("invalid-parameters-proved: call %d on %s (%s, stated hash 0x%s): a proof and no error were returned", k, s.Key(), j.kind, j.hash.Text(16))
+				}
+			}
+			return ""
+		}
+	}
+	x.S.Eval(int64(calls))
+	x.S.Count("fault:schedule/interleaved-callers-of-one-proving-system")
+	res, sim, err := service.RunCallers(t, x.Log, x.S, callers)
+	return callersVerdict(x, "C07", fmt.Sprintf("%d prover calls on %s", calls, s.Key()), res, sim, err)
 }
